@@ -77,7 +77,7 @@ def operand_of(env, name, calibrated, current_raw=None):
     if name in env:
         v = env[name]
         x = v.value if calibrated else v.raw
-        if v.dontcare and calibrated:
+        if (v.dontcare and calibrated) or x is None:
             raise DontCare()
         return x
     if current_raw is not None:
